@@ -1502,7 +1502,7 @@ def command_base_inventory(mod):
 def gen_misc(mods):
     from translate import HEADER, coq_str, const_int, src_of
     lines = [HEADER.format(src="scsi_command.py (init_cdb), scsi.py (attach table), iscsi_device.py (status dispatch)",
-                           extra=" Model.Command Model.Enum Model.Exec Model.Device Model.Sx Gen.Tables")]
+                           extra=" Model.Command Model.Enum Model.Exec Model.Device Model.Sx Model.SenseStep Gen.Tables")]
     info = {}
     unknown = []
     # ---- SCSICommand.init_cdb: if lo <= opcode.value <= hi: cdb = bytearray(n) | raise ... else: raise
@@ -1982,6 +1982,7 @@ def sense_class(mods):
         elif f != "strict":
             key_default = "(Some %s)" % coq_str(f)
     da = fns.get("_describe_ascq")
+    steps = []
     if da is None:
         unknown.append("_describe_ascq missing")
     else:
@@ -1990,6 +1991,41 @@ def sense_class(mods):
             unknown.append("_describe_ascq: no sense_ascq_dict lookup")
         elif f != "strict":
             ascq_default = "(Some %s)" % coq_str(f)
+        # the ORDER of the tests matters (an assigned code whose qualifier lies in the vendor specific range): the body as a list of steps
+        def is_key(n):      # self._ascq()
+            return isinstance(n, ast.Call) and dotted(n.func) == "self._ascq" and not n.args and not n.keywords
+
+        def text_of(st):
+            if isinstance(st, ast.Return) and isinstance(st.value, ast.Constant) and isinstance(st.value.value, str):
+                return st.value.value
+            return None
+        body = [b for b in da.body if not (isinstance(b, ast.Expr) and isinstance(b.value, ast.Constant))]
+        for b in body:
+            step = None
+            if isinstance(b, ast.If) and not b.orelse and len(b.body) == 1 and isinstance(b.test, ast.Compare) and len(b.test.ops) == 1 \
+                    and isinstance(b.test.ops[0], ast.In):
+                lhs, rhs = b.test.left, b.test.comparators[0]
+                if is_key(lhs) and dotted(rhs) == "sense_ascq_dict" and isinstance(b.body[0], ast.Return) and isinstance(b.body[0].value, ast.Subscript) \
+                        and dotted(b.body[0].value.value) == "sense_ascq_dict" and is_key(b.body[0].value.slice):
+                    step = "AInTable"
+                elif dotted(lhs) == "self.asc" and dotted(rhs) == "vendor_specific_sense_asc" and text_of(b.body[0]) is not None:
+                    step = "AVendorAsc %s" % coq_str(text_of(b.body[0]))
+                elif dotted(lhs) == "self.ascq" and dotted(rhs) == "vendor_specific_sense_ascq" and text_of(b.body[0]) is not None:
+                    step = "AVendorAscq %s" % coq_str(text_of(b.body[0]))
+            elif isinstance(b, ast.Return):
+                v = b.value
+                if text_of(b) is not None:
+                    step = "AText %s" % coq_str(text_of(b))
+                elif isinstance(v, ast.Call) and dotted(v.func) == "sense_ascq_dict.get" and len(v.args) == 2 and is_key(v.args[0]) \
+                        and isinstance(v.args[1], ast.Constant) and isinstance(v.args[1].value, str):
+                    step = "AGetDefault %s" % coq_str(v.args[1].value)
+                elif isinstance(v, ast.Subscript) and dotted(v.value) == "sense_ascq_dict" and is_key(v.slice):
+                    step = "AStrict"
+            if step is None:
+                unknown.append("_describe_ascq: %s" % " ".join(src_of(b, mod.text).split())[:100])
+                step = "AUnknownStep"
+            steps.append(step)
+    lines.append("Definition sense_ascq_steps : list ascq_step := [%s].\n" % "; ".join(steps))
     lines.append("Definition sense_dispatch : list (list N * layout * string * string) := [%s].\n" % "; ".join(dispatch))
     lines.append("Definition sense_init_asc : option N := %s.\nDefinition sense_init_ascq : option N := %s.\n" % (init_asc, init_ascq))
     lines.append("Definition sense_str_guard : bool := %s.\n" % guard)
